@@ -139,7 +139,12 @@ Record InvAt (p : pstate) (s : st) (l0 l1 l2 l3 l4 : latch) (dead : nat) : Prop 
   iv_pcount : pcount (pst p) = pcount (adv l3 s);
   iv_out : out (pst p) = out (if fired l2 then adv l2 (adv l3 s) else adv l3 s);
   iv_exitc : exitc (pst p) = None;
-  iv_icount : icount (pst p) = icount s }.
+  iv_icount : icount (pst p) = icount s;
+  (* the slot in latch 2 has fired, except the ecall that stalls the pipeline at EX *)
+  iv_fired : fired l2 = match stalled p with
+                        | Some (k, _) => if k =? 2 then false else nonempty l2
+                        | None => nonempty l2
+                        end }.
 
 Definition Inv (p : pstate) (s : st) : Prop :=
   exists l0 l1 l2 l3 l4 dead, InvAt p s l0 l1 l2 l3 l4 dead.
